@@ -316,10 +316,12 @@ class C06(Check):
             zs = zones(b, parts, epi)
             for c in range(1, len(body)):
                 self.bump('cut@' + zone_of_cut(zs, c))
-            step = 1 if len(body) <= 90 else 2
-            for plen in range(0, len(body) + 1, step):
+            step = 1 if (len(body) <= 90 or n > 200) else 2
+            for plen in sorted(set(range(0, len(body) + 1, step)) | {len(body)}):
                 p = body[:plen]
                 sets = self._cutsets_for(rng, plen, tlen, pairs)
+                if plen == len(body):
+                    sets += [stride_cuts(plen, k) for k in range(1, 17) if k < plen]
                 res = [real_parse(b, cut(p, s)) for s in sets]
                 self.bump('cutsets', len(sets))
                 out.append((f'mp cuts {hb(b)} {hb(p)} {cutsets_str(sets)}', compress(res),
@@ -460,18 +462,21 @@ class C06(Check):
         # exhaustive single + double cuts on all prefixes of small bodies, strides on larger ones
         for i in range(n):
             small = i % 3 != 2
+            medium = n > 200 and i % 100 == 7       # thorough tier: pairs on bodies up to 120 bytes
             b, parts, epi = gen_body(rng, small=small)
             body = encode(b, parts, epi)
             tlen = len(delim(b))
-            L = min(len(body), 60 if small else 300)
+            L = min(len(body), 120 if medium else 60 if small else 300)
             for plen in range(0, L + 1):
                 p = body[:plen]
                 one = real_parse(b, [p])
                 sets = [[c] for c in range(1, plen)]
-                if small and plen <= 48:
+                if (small and plen <= 48) or medium:
                     sets += [[a, c] for a in range(1, plen) for c in range(a + 1, plen)]
                 sets.append(list(range(1, plen)))
                 sets += [stride_cuts(plen, k) for k in (2, 3, 4, 5, 7, 8, 16, tlen - 1, tlen, tlen + 1) if 0 < k < plen]
+                if plen == L:
+                    sets += [stride_cuts(plen, k) for k in range(1, 17) if k < plen]
                 sets.append(random_cuts(rng, plen))
                 for s in sets:
                     evals += 1
